@@ -61,7 +61,10 @@ func NewStackingContext(box Box, childContexts []StackingContext, blocks []bo.Bo
 	// by z-index, then tree order.
 
 	zIndex := box.Box().Style.GetZIndex()
-	if zIndex.String == "auto" {
+	if zIndex.String == "auto" || box.Box().Style.GetPosition().String == "static" {
+		// z-index only applies to positioned boxes : a box that creates a
+		// stacking context for another reason (opacity, transform,
+		// overflow) is painted at level 0
 		self.zIndex = 0
 	} else {
 		self.zIndex = zIndex.Int
